@@ -50,39 +50,54 @@ Section Spec.
     (if c_batch c =? 0 then (start =? (if h <? 1 then 1 else h)) && (stop =? (if best <? h then best else h))
      else true).
 
+  (* the block has a committed filter header at all *)
+  Definition has_header (c : call) : bool := c_known c && (0 <=? c_blk c) && (c_blk c <=? best).
+
+  (* the local entry for the call's block (the first one, as both lookups
+     find it) satisfies the relation *)
+  Definition has_good (c : call) (l : list (Z * Z)) : bool :=
+    match find (fun p => fst p =? c_blk c) l with
+    | Some p => verified (c_blk c) (snd p)
+    | None => false
+    end.
+
   (* pc / pd: cache and database contents observed before the operation;
      sv: every (block, filter) served so far by a well-formed response *)
-  (* strict = true: the whole property.  strict = false ("core"): entries that
-     were already in the cache / database before the operation, and filters
-     returned from them, are exempt from the relation — they may have been
-     invalidated by a rewrite of the committed headers (root cause 1); what
-     is fetched or stored anew is never exempt. *)
+  (* WHATEVER is returned — network, cache or database — satisfies the
+     relation for the committed headers (always: since the repair of F-C05-2
+     local hits are checked like responses).
+     strict concerns the CONTENTS of cache and database only.  strict = true:
+     everything visible satisfies the relation (histories with fixed headers).
+     strict = false: entries that were already there before the operation are
+     exempt — a rewrite of the committed headers may have invalidated them;
+     they stay (nothing removes them) but are never handed out; what is
+     stored anew is never exempt. *)
   Definition step_ok (strict : bool) (pc pd sv : list (Z * Z)) (o : op) (ob : obs) : bool :=
     match o with
     | Call c =>
       let sv' := served c ++ sv in
-      (* whatever is returned satisfies the committed-header relation ... *)
       (match o_res ob with
        | RFilter f =>
-         (if o_queried ob || strict then verified (c_blk c) f else true) &&
+         verified (c_blk c) f &&
          (if o_queried ob
           (* ... and, when fetched, was served for the target block by a
              well-formed response of this call whose batch succeeded *)
           then (match c_verdict c with VOk => true | _ => false end) && pmem (c_blk c, f) (served c)
-          else pmem (c_blk c, f) pc || pmem (c_blk c, f) pd)
+          else has_header c && (pmem (c_blk c, f) pc || pmem (c_blk c, f) pd))
        | RNone => false
        | _ => true
        end) &&
       (* an unknown hash or filter type never reaches the network *)
       (if negb (c_known c) || negb (c_ftype_ok c) then negb (o_queried ob) else true) &&
-      (* a cached or stored filter is returned without the network *)
-      (if c_ftype_ok c && (existsb (fun p => fst p =? c_blk c) pc || existsb (fun p => fst p =? c_blk c) pd)
+      (* a cached or stored filter that satisfies the relation is returned
+         without the network *)
+      (if c_ftype_ok c && has_header c && (has_good c pc || has_good c pd)
        then negb (o_queried ob) && negb (is_err (o_res ob)) else true) &&
       (* height 0 and heights above the best filter header have nothing to be
          checked against: no filter is ever fetched for them *)
       (if o_queried ob && negb ((1 <=? c_blk c) && (c_blk c <=? best)) then is_err (o_res ob) else true) &&
       (if o_queried ob then range_ok c (o_range ob) else true) &&
-      (* cache: only verified filters; gains only what this call's stream served *)
+      (* cache: gains only verified filters that this call's stream served *)
       forallb (fun p => (verified (fst p) (snd p) || (negb strict && pmem p pc)) &&
                         (pmem p pc || (o_queried ob && pmem p (served c)))) (o_cache ob)
     | Flush _ | PurgeDB =>
@@ -113,40 +128,41 @@ End Spec.
 
 (* -------- monitor for histories with header rewrites -------- *)
 (* The monitor follows the committed headers: after a rewrite it judges by
-   the new ones.  A rewrite itself changes neither cache nor database. *)
-Definition rewrite_ok (Hf : Z -> Z -> Z) (strict : bool) (nf : Z -> Z) (pc pd : list (Z * Z)) (ob : obs) : bool :=
-  forallb (fun p => (verified Hf nf (fst p) (snd p) || negb strict) && pmem p pc) (o_cache ob) &&
-  forallb (fun p => (verified Hf nf (fst p) (snd p) || negb strict) && pmem p pd) (o_db ob).
+   the new ones.  A rewrite (and a GetBlock) changes neither cache nor
+   database.  Entries stored before a rewrite may no longer satisfy the
+   relation; they may stay, but no call may return them (step_ok). *)
+Definition unchanged_ok (pc pd : list (Z * Z)) (ob : obs) : bool :=
+  forallb (fun p => pmem p pc) (o_cache ob) && forallb (fun p => pmem p pd) (o_db ob).
 
 (* the monitor's view of "the call opened a database read transaction":
-   accepted filter type and no entry for the block in the cache *)
-Definition window_seen (pc : list (Z * Z)) (c : call) : bool :=
-  c_ftype_ok c && negb (existsb (fun p => fst p =? c_blk c) pc).
+   accepted filter type and no servable entry for the block in the cache *)
+Definition window_seen (Hf : Z -> Z -> Z) (fh : Z -> Z) (best : Z) (pc : list (Z * Z)) (c : call) : bool :=
+  c_ftype_ok c && negb (has_header best c && has_good Hf fh c pc).
 
-Fixpoint xfirst_bad (Hf : Z -> Z -> Z) (strict : bool) (fh : Z -> Z) (best : Z) (i : Z)
+Fixpoint xfirst_bad (Hf : Z -> Z -> Z) (fh : Z -> Z) (best : Z) (i : Z)
     (pc pd sv : list (Z * Z)) (tr : list (xop * obs)) : option Z :=
   match tr with
   | [] => None
   | (XBase o, ob) :: rest =>
-    if step_ok Hf fh best strict pc pd sv o ob
-    then xfirst_bad Hf strict fh best (i + 1) (o_cache ob) (next_pd pd o ob) (next_sv sv o) rest
+    if step_ok Hf fh best false pc pd sv o ob
+    then xfirst_bad Hf fh best (i + 1) (o_cache ob) (next_pd pd o ob) (next_sv sv o) rest
     else Some i
   | (XRewrite nb nf, ob) :: rest =>
-    if rewrite_ok Hf strict nf pc pd ob
-    then xfirst_bad Hf strict nf nb (i + 1) (o_cache ob) (o_db ob) sv rest
+    if unchanged_ok pc pd ob
+    then xfirst_bad Hf nf nb (i + 1) (o_cache ob) (o_db ob) sv rest
     else Some i
   | (XGetBlock _, ob) :: rest =>
     (* GetBlock is no producer of filters: cache and database hold nothing
-       they did not hold before (and, strict, only verified entries) *)
-    if rewrite_ok Hf strict fh pc pd ob
-    then xfirst_bad Hf strict fh best (i + 1) (o_cache ob) (o_db ob) sv rest
+       they did not hold before *)
+    if unchanged_ok pc pd ob
+    then xfirst_bad Hf fh best (i + 1) (o_cache ob) (o_db ob) sv rest
     else Some i
   | (XCallW c w, ob) :: rest =>
     (* the call is judged exactly like an undisturbed call against the
        database contents pd of the moment its read transaction ran; what the
        overlapping writers stored is in the database afterwards *)
-    if step_ok Hf fh best strict pc pd sv (Call c) ob
-    then xfirst_bad Hf strict fh best (i + 1) (o_cache ob)
-           (if window_seen pc c then db_put_all pd w else pd) (next_sv sv (Call c)) rest
+    if step_ok Hf fh best false pc pd sv (Call c) ob
+    then xfirst_bad Hf fh best (i + 1) (o_cache ob)
+           (if window_seen Hf fh best pc c then db_put_all pd w else pd) (next_sv sv (Call c)) rest
     else Some i
   end.
